@@ -13,7 +13,6 @@
 From Coq Require Import List String Ascii.
 Import ListNotations.
 From BD.Params Require Import Model Proofs.
-From BD.Log Require Model Proofs.
 
 (* Every documented item - word, "quoted value", NAME=word, NAME="quoted value" - of a list of any length yields
    exactly its name and value, for values in V0: a word has no white space / quote, does not start with a back-tick
@@ -77,20 +76,6 @@ Theorem C11_output_retry : forall pre n c mid, no_writer n mid ->
   value_of n (reinstall (ofinal [] (pre ++ OEnd n c :: mid))) = Some (trim_space c).
 Proof. exact output_retry. Qed.
 Print Assumptions C11_output_retry.
-
-(* The captured bytes are the producer's stdout - and its stderr when no `stderr:` file is set (F11d) - provided the
-   capture pipe takes them (one attempt, at most half a pipe; beyond that see C12: F12c) *)
-Theorem C11_capture_partial : forall (A : Type) (c : Log.Model.cfg) (cs : list (Log.Model.chunk A)),
-  Log.Model.c_output c = true -> List.length (Log.Model.log_of A c cs) <= Log.Model.HALFPIPE ->
-  Log.Model.outvar A (Log.Model.run A c [cs] []) = Some (Log.Model.log_of A c cs).
-Proof. exact Log.Proofs.capture_single. Qed.
-Print Assumptions C11_capture_partial.
-
-Theorem C11_capture_stdout_refuted : exists (c : Log.Model.cfg) (cs : list (Log.Model.chunk nat)),
-  Log.Model.c_output c = true /\
-  Log.Model.outvar nat (Log.Model.run nat c [cs] []) <> Some (Log.Model.out_of nat cs).
-Proof. exact Log.Proofs.capture_stdout_refuted. Qed.
-Print Assumptions C11_capture_stdout_refuted.
 
 (* Non-vacuity: V0 and V1 are inhabited by the kinds of value the property speaks of *)
 Example C11_V0_nonvacuous :
